@@ -10,6 +10,10 @@ def one(args):
     m, slot = args
     d, root = mutate.scratch_copy()
     try:
+        if m.get('base_patch'):
+            bp = os.path.join(os.path.dirname(HERE), m['base_patch'])
+            if subprocess.run(['git', 'apply', '--whitespace=nowarn', bp], cwd=root, capture_output=True).returncode != 0:
+                return m['id'], 'patch-miss'
         if not mutate.apply_edits(root, m['edits']):
             return m['id'], 'patch-miss'
         tgt = os.path.join(tempfile.gettempdir(), 'evx-surv-tgt-%d' % slot)
@@ -25,8 +29,13 @@ def one(args):
         shutil.rmtree(d, ignore_errors=True)
 
 def main():
-    ms = mutate.load_mutants()
-    only = sys.argv[1:]
+    ms = [m for m in mutate.load_mutants() if 'patch' not in m]  # seeds / refactorings are confirmed by seedcheck / refcheck
+    only = [a for a in sys.argv[1:] if a != '--missing']
+    if '--missing' in sys.argv[1:]:
+        pp = os.path.join(HERE, 'mutants', 'test_survival.json')
+        have = json.load(open(pp)) if os.path.exists(pp) else {}
+        ms = [m for m in ms if m['id'] not in have]
+        only = only or ['']
     if only:
         ms = [m for m in ms if any(o in m['id'] for o in only)]
     W = 8
